@@ -319,11 +319,15 @@ def finish(ctx: Ctx, write_evidence=True):
             "violations": (ctx.nviol - sum(ctx.counters.get("sig:" + s, 0)
                                             for s in seen_known)) if fresh else 0,
         }
-        os.makedirs(os.path.join(VERIF, "evidence"), exist_ok=True)
-        tmp = os.path.join(VERIF, "evidence", ".%s.json.%d" % (ctx.prop, os.getpid()))
+        # evidence proper only describes runs against /repo itself; a run against another copy
+        # (VERIF_REPO=<mutant worktree>) must never overwrite it
+        edir = os.path.join(VERIF, "evidence") if os.path.abspath(REPO) == "/repo" \
+            else os.path.join(VERIF, ".work", "evidence-other-repo")
+        os.makedirs(edir, exist_ok=True)
+        tmp = os.path.join(edir, ".%s.json.%d" % (ctx.prop, os.getpid()))
         with open(tmp, "w") as fh:
             json.dump(ev, fh, indent=1, sort_keys=True)
-        os.replace(tmp, os.path.join(VERIF, "evidence", "%s.json" % ctx.prop))
+        os.replace(tmp, os.path.join(edir, "%s.json" % ctx.prop))
     for ln in lines:
         print(ln)
     for path, v in replays:
